@@ -157,13 +157,15 @@ structure Cx where
   F : List (String × FnBody) := []
   subF : ∀ p, p ∈ F → p.1 ∈ W := by intros; simp_all
   CF : (N : NumOps) → ExtOracle N → Nat → CallFn N → Prop := fun _ _ _ _ => True
-  /-- WATCHED LOCALS: names with a known binding on each side (`none` = not bound on that side). Where such a name
-  is watched (`.wat n ∈ D`) it is never declared or assigned, so every environment — the captured environments of
-  closures created in that scope included — binds it to exactly this cell. (Watched GLOBALS are the names of `W`:
-  bound on neither side.) -/
+  /-- WATCHED NAMES WITH KNOWN BINDINGS: the cell each side binds a watched name to (`none` = not bound on that side:
+  the name reads the global there). Where a name is watched (`.wat n ∈ D`) it is never declared or assigned, so
+  every environment — the captured environments of closures created in that scope included — binds it exactly like
+  this. The names of `W` are watched in EVERY environment pair (`EnvRel.dw`): watched globals (bound on neither
+  side, the only kind allowed when the related code starts from the empty environment, `Cx.top`), and locals that
+  the consumer's own one-sided preludes declared before any related code runs. Other names of `bindL` / `bindR`
+  become watched at a one-sided declaration inside the related code (`EnvRel.watchLeft` / `watchRight`). -/
   bindL : List (String × Nat) := []
   bindR : List (String × Nat) := []
-  subW : ∀ n ∈ W, lookupAssoc n bindL = none ∧ lookupAssoc n bindR = none := by intros; simp_all [lookupAssoc]
   /-- the consumer's heap invariant: a relation between the PRIVATE parts of the two heaps (objects that are
   related to nothing: tables / cells of different shape kept in correspondence by designated closures …). It holds
   in every `SRel` state pair; generic code preserves it because it only changes related objects (`stable`);
@@ -171,6 +173,12 @@ structure Cx where
   I : (N : NumOps) → Inj N → State N → State N → Prop := fun _ _ _ _ => True
   stable : ∀ (N : NumOps) (β β' : Inj N) (σ σ' s s' : State N), β.ext β' → Frame β σ σ' s s' →
     I N β σ σ' → I N β' s s' := by intros; trivial
+
+/-- the always-watched names are globals (what the theorems that start from the EMPTY environment ask) -/
+def Cx.top (cx : Cx) : Prop := ∀ n ∈ cx.W, lookupAssoc n cx.bindL = none ∧ lookupAssoc n cx.bindR = none
+
+/-- default proof of `cx.top` (no watched names, or no bindings) -/
+macro "top_tac" : tactic => `(tactic| first | (intro _ h; cases h) | (intro _ _; exact ⟨rfl, rfl⟩))
 
 /-- the empty context -/
 def Cx.none : Cx := {}
